@@ -136,7 +136,7 @@ public:
   void Destroy() override { m.reset(); RemoveTextProc(); proc = nullptr; sim::TimeoutTag() = ""; }
   std::string CrashProperty(const std::string& f, const Op& op) const override {
     if (op.kind == "Calculate" || op.kind == "RecalculateAll" || op.kind == "EvalCst" || op.kind == "EvalExpr") return "C02";
-    if (f == "C16" && (op.kind == "Checkpoint" || op.kind == "CrashRestart")) return "C16";
+    if (f == "C16" && (op.kind == "Checkpoint" || op.kind == "CrashRestart" || op.kind == "PackProbe")) return "C16";
     return "C04";
   }
   std::vector<std::string> RealComponents() const override { return { "ccl::semantic::RSModel / rsValuesFacet / rsCalculationFacet / InterpretationStorage / RSCore", "rslang Interpreter / ASTInterpreter / TypeAuditor / StructuredData / SDCompact", "JSON (de)serialisation of models" }; }
